@@ -1,1 +1,122 @@
-(* Props/C05.v -- stub, to be filled in *)
+(* Props/C05.v -- property theorems only: Theorem / exact lemma / Check (pins the statement) / Print Assumptions.
+   Tridiagonal matrices (src/tridiagonal.rs, model coq/Model/Tridiag.v).
+     wfT t      : |main| = n, |sub| = |sup| = n - 1           (what every constructor establishes)
+     dense t    : nat -> nat -> A, the textbook matrix with the same three diagonals (the "dense twin")
+     in_band i j: i = j \/ i = j + 1 \/ i + 1 = j
+     entry m i j: element (i,j) of the flat row-major dense matrix returned by convert *)
+From Coq Require Import List Arith Bool ZArith QArith Qcanon.
+Local Open Scope nat_scope.
+From OV Require Import Base.Panic Base.Arith Model.Vector Model.Matrix Model.Tridiag Inst.QcInst Proofs.Tridiag.
+Import ListNotations.
+
+(* ---- views: index, convert, transpose (every n >= 1, every entry value, any arithmetic) ---- *)
+Theorem tridiag_views : forall (A : Arith) (t : tridiag A), wfT t -> 1 <= tn t ->
+  (forall i j, i < tn t -> j < tn t -> in_band i j -> tindex t i j = Ok (dense t i j)) /\
+  (forall i j, tn t <= i \/ tn t <= j \/ ~ in_band i j -> tindex t i j = Panic Guard) /\
+  (forall i j, ~ in_band i j -> dense t i j = zero) /\
+  (exists m, tconvert t = Ok m /\ wfM m /\ rows m = tn t /\ cols m = tn t /\
+             forall i j, i < tn t -> j < tn t -> entry m i j = dense t i j) /\
+  (wfT (ttranspose t) /\ tn (ttranspose t) = tn t /\ forall i j, dense (ttranspose t) i j = dense t j i).
+Proof. intros A t. exact (tridiag_views_lemma t). Qed.
+Check tridiag_views : forall (A : Arith) (t : tridiag A), wfT t -> 1 <= tn t ->
+  (forall i j, i < tn t -> j < tn t -> in_band i j -> tindex t i j = Ok (dense t i j)) /\
+  (forall i j, tn t <= i \/ tn t <= j \/ ~ in_band i j -> tindex t i j = Panic Guard) /\
+  (forall i j, ~ in_band i j -> dense t i j = zero) /\
+  (exists m, tconvert t = Ok m /\ wfM m /\ rows m = tn t /\ cols m = tn t /\
+             forall i j, i < tn t -> j < tn t -> entry m i j = dense t i j) /\
+  (wfT (ttranspose t) /\ tn (ttranspose t) = tn t /\ forall i j, dense (ttranspose t) i j = dense t j i).
+Print Assumptions tridiag_views.
+
+(* a concrete non-trivial input meeting the hypotheses: the 3x3 matrix [[1,2,0],[3,4,5],[0,6,7]] over Qc *)
+Definition ex3 : tridiag AQ := @mkT AQ [q 3 1; q 6 1] [q 1 1; q 4 1; q 7 1] [q 2 1; q 5 1] 3.
+Example tridiag_views_nonvacuous : wfT ex3 /\ 1 <= tn ex3.
+Proof. unfold wfT; cbn; auto. Qed.
+
+(* ---- writes through IndexMut change exactly the addressed entry, or are refused ---- *)
+Theorem tridiag_writes : forall (A : Arith) (t : tridiag A) i j (x : A), wfT t ->
+  (i < tn t -> j < tn t -> in_band i j ->
+     exists t', tset t i j x = Ok t' /\ wfT t' /\ tn t' = tn t /\
+       forall a b, a < tn t -> b < tn t -> dense t' a b = if (a =? i) && (b =? j) then x else dense t a b) /\
+  (tn t <= i \/ tn t <= j \/ ~ in_band i j -> tset t i j x = Panic Guard).
+Proof. intros A t i j x. exact (tridiag_writes_lemma t i j x). Qed.
+Check tridiag_writes : forall (A : Arith) (t : tridiag A) i j (x : A), wfT t ->
+  (i < tn t -> j < tn t -> in_band i j ->
+     exists t', tset t i j x = Ok t' /\ wfT t' /\ tn t' = tn t /\
+       forall a b, a < tn t -> b < tn t -> dense t' a b = if (a =? i) && (b =? j) then x else dense t a b) /\
+  (tn t <= i \/ tn t <= j \/ ~ in_band i j -> tset t i j x = Panic Guard).
+Print Assumptions tridiag_writes.
+Example tridiag_writes_nonvacuous : wfT ex3 /\ 2 < tn ex3 /\ 1 < tn ex3 /\ in_band 2 1.
+Proof. unfold wfT, in_band; cbn; repeat split; auto. Qed.
+
+(* ---- arithmetic = arithmetic on the dense twin (ring laws: -0 = 0, 0 + 0 = 0, 0 * s = 0) ---- *)
+Theorem tridiag_arith : forall (A : Arith), RingLaws A -> forall (a b : tridiag A) (s : A),
+  wfT a -> wfT b -> tn a = tn b ->
+  (wfT (tneg a) /\ tn (tneg a) = tn a /\ forall i j, dense (tneg a) i j = (- dense a i j)%A) /\
+  (exists c, tadd a b = Ok c /\ wfT c /\ tn c = tn a /\ forall i j, dense c i j = (dense a i j + dense b i j)%A) /\
+  (exists c, tminus a b = Ok c /\ wfT c /\ tn c = tn a /\ forall i j, dense c i j = (dense a i j - dense b i j)%A) /\
+  (wfT (tscale a s) /\ tn (tscale a s) = tn a /\ forall i j, dense (tscale a s) i j = (dense a i j * s)%A) /\
+  (wfT (tscale_l s a) /\ tn (tscale_l s a) = tn a /\ forall i j, dense (tscale_l s a) i j = (s * dense a i j)%A).
+Proof. intros A RL a b s. exact (tridiag_arith_lemma RL a b s). Qed.
+Check tridiag_arith : forall (A : Arith), RingLaws A -> forall (a b : tridiag A) (s : A),
+  wfT a -> wfT b -> tn a = tn b ->
+  (wfT (tneg a) /\ tn (tneg a) = tn a /\ forall i j, dense (tneg a) i j = (- dense a i j)%A) /\
+  (exists c, tadd a b = Ok c /\ wfT c /\ tn c = tn a /\ forall i j, dense c i j = (dense a i j + dense b i j)%A) /\
+  (exists c, tminus a b = Ok c /\ wfT c /\ tn c = tn a /\ forall i j, dense c i j = (dense a i j - dense b i j)%A) /\
+  (wfT (tscale a s) /\ tn (tscale a s) = tn a /\ forall i j, dense (tscale a s) i j = (dense a i j * s)%A) /\
+  (wfT (tscale_l s a) /\ tn (tscale_l s a) = tn a /\ forall i j, dense (tscale_l s a) i j = (s * dense a i j)%A).
+Print Assumptions tridiag_arith.
+Example tridiag_arith_nonvacuous : wfT ex3 /\ wfT (ttranspose ex3) /\ tn ex3 = tn (ttranspose ex3).
+Proof. unfold wfT; cbn; auto. Qed.
+
+(* mismatched sizes are refused *)
+Theorem tridiag_arith_rejects : forall (A : Arith) (a b : tridiag A), tn a <> tn b ->
+  tadd a b = Panic Guard /\ tminus a b = Panic Guard.
+Proof. intros A a b. exact (tadd_rejects a b). Qed.
+Check tridiag_arith_rejects : forall (A : Arith) (a b : tridiag A), tn a <> tn b ->
+  tadd a b = Panic Guard /\ tminus a b = Panic Guard.
+Print Assumptions tridiag_arith_rejects.
+Example tridiag_arith_rejects_nonvacuous : tn ex3 <> tn (@mkT AQ [] [q 1 1] [] 1).
+Proof. cbn. discriminate. Qed.
+
+(* T += s, T -= s, T *= s act on the stored (in-band) elements *)
+Theorem tridiag_scalar_assign : forall (A : Arith), RingLaws A -> forall (t : tridiag A) (s : A), wfT t ->
+  (wfT (tadd_assign_s t s) /\ tn (tadd_assign_s t s) = tn t /\
+   forall i j, i < tn t -> j < tn t -> in_band i j -> dense (tadd_assign_s t s) i j = (dense t i j + s)%A) /\
+  (wfT (tsub_assign_s t s) /\ tn (tsub_assign_s t s) = tn t /\
+   forall i j, i < tn t -> j < tn t -> in_band i j -> dense (tsub_assign_s t s) i j = (dense t i j - s)%A) /\
+  (wfT (tmul_assign_s t s) /\ tn (tmul_assign_s t s) = tn t /\
+   forall i j, dense (tmul_assign_s t s) i j = (dense t i j * s)%A).
+Proof. intros A RL t s. exact (tridiag_scalar_assign_lemma RL t s). Qed.
+Check tridiag_scalar_assign : forall (A : Arith), RingLaws A -> forall (t : tridiag A) (s : A), wfT t ->
+  (wfT (tadd_assign_s t s) /\ tn (tadd_assign_s t s) = tn t /\
+   forall i j, i < tn t -> j < tn t -> in_band i j -> dense (tadd_assign_s t s) i j = (dense t i j + s)%A) /\
+  (wfT (tsub_assign_s t s) /\ tn (tsub_assign_s t s) = tn t /\
+   forall i j, i < tn t -> j < tn t -> in_band i j -> dense (tsub_assign_s t s) i j = (dense t i j - s)%A) /\
+  (wfT (tmul_assign_s t s) /\ tn (tmul_assign_s t s) = tn t /\
+   forall i j, dense (tmul_assign_s t s) i j = (dense t i j * s)%A).
+Print Assumptions tridiag_scalar_assign.
+
+(* ---- &T * &v = dense twin times v, for every n >= 1 (n = 1 needs the repair 1f8b278) ---- *)
+Theorem tridiag_mul_spec : forall (A : Arith), RingLaws A -> forall (t : tridiag A) (v : list A),
+  wfT t -> 1 <= tn t -> length v = tn t ->
+  exists w, tmul t v = Ok w /\ length w = tn t /\
+    forall i, i < tn t -> nth i w zero = sum_n (tn t) (fun j => (dense t i j * nth j v zero)%A).
+Proof. intros A RL t v. exact (tmul_spec_lemma RL t v). Qed.
+Check tridiag_mul_spec : forall (A : Arith), RingLaws A -> forall (t : tridiag A) (v : list A),
+  wfT t -> 1 <= tn t -> length v = tn t ->
+  exists w, tmul t v = Ok w /\ length w = tn t /\
+    forall i, i < tn t -> nth i w zero = sum_n (tn t) (fun j => (dense t i j * nth j v zero)%A).
+Print Assumptions tridiag_mul_spec.
+Example tridiag_mul_spec_nonvacuous :
+  wfT ex3 /\ 1 <= tn ex3 /\ length ([q 1 1; q (-1) 2; q 2 1] : list AQ) = tn ex3 /\
+  wfT (@mkT AQ [] [q 3 2] [] 1) /\ 1 <= 1 /\ length ([q (-4) 1] : list AQ) = 1.       (* and the n = 1 boundary *)
+Proof. unfold wfT; cbn; auto 10. Qed.
+
+Theorem tridiag_mul_rejects : forall (A : Arith) (t : tridiag A) (v : list A),
+  length v <> tn t -> tmul t v = Panic Guard.
+Proof. intros A t v. exact (tmul_rejects t v). Qed.
+Check tridiag_mul_rejects : forall (A : Arith) (t : tridiag A) (v : list A),
+  length v <> tn t -> tmul t v = Panic Guard.
+Print Assumptions tridiag_mul_rejects.
+Example tridiag_mul_rejects_nonvacuous : length ([q 1 1] : list AQ) <> tn ex3.
+Proof. cbn. discriminate. Qed.
